@@ -10,18 +10,18 @@ import common as C
 import pgen
 
 CORE = {"atom", "panic", "yield", "yieldx", "block", "if", "switch", "for", "break", "continue", "return",
-        "decl", "inc", "use", "closure", "call", "fallthrough", "yieldfrom", "rangeiter"}
+        "decl", "inc", "use", "closure", "call", "fallthrough", "yieldfrom", "rangeiter", "range"}
 
 
 def norm(t):
     return re.sub(r"[\s;]", "", t)
 
 
-def eligible(body):
+def eligible(body, allow_range=True):
     ok = [True]
 
     def f(s, p):
-        if s["s"] not in CORE:
+        if s["s"] not in CORE or (s["s"] == "range" and not allow_range):
             ok[0] = False
     pgen.walk(body, f)
     return ok[0]
@@ -50,6 +50,11 @@ def src_stmt(s):
     if k == "rangeiter":
         import lowering
         return lowering.rangeiter(s, src_stmts(s["b"]))
+    if k == "range":
+        import lowering
+        if s.get("closure"):
+            raise Unknown("range inside a plain closure (not a statement of the generator body)")
+        return lowering.rangestmt(s, src_stmts(s["b"]))
     if k == "block":
         return [{"s": "block", "b": src_stmts(s["b"])}]
     if k == "if":
@@ -97,6 +102,48 @@ def src_stmts(ss):
 
 class Unknown(Exception):
     pass
+
+
+ITER_INIT = re.compile(r"^(ɪʇ\d+):=[^.()]+\.(New[A-Za-z]+Iter)\((.*)\)$")
+
+
+def canon_iters(tree):
+    """Rename the generated iterator variables of range statements (ɪʇ1, ɪʇ2, ... : a per-file counter) after the
+    constructor call that initialises them, and the import name of the seq package in that call to SEQ; lowering.py
+    produces the same names on the source side."""
+    names = {}
+
+    def scan(x):
+        if isinstance(x, dict):
+            if x.get("s") == "atom":
+                m = ITER_INIT.match(norm(x["t"]))
+                if m:
+                    names[m.group(1)] = (m.group(2), m.group(3))
+            for v in x.values():
+                scan(v)
+        elif isinstance(x, list):
+            for v in x:
+                scan(v)
+    scan(tree)
+    if not names:
+        return tree
+    pat = re.compile(r"ɪʇ\d+")
+
+    def sub(t):
+        m = ITER_INIT.match(norm(t))
+        if m and m.group(1) in names:
+            return "ɪʇ<%s>:=SEQ.%s(%s)" % (m.group(3), m.group(2), m.group(3))
+        return pat.sub(lambda mm: "ɪʇ<%s>" % names[mm.group(0)][1] if mm.group(0) in names else mm.group(0), t)
+
+    def go(x):
+        if isinstance(x, dict):
+            return {k: go(v) for k, v in x.items()}
+        if isinstance(x, list):
+            return [go(v) for v in x]
+        if isinstance(x, str):
+            return sub(x)
+        return x
+    return go(tree)
 
 
 def tgt_stmt(j, tagless=None):
